@@ -137,6 +137,35 @@ pub fn reused_hashes(w: &World) -> std::collections::BTreeMap<String, (Vec<(u64,
         .collect()
 }
 
+/// block tags resolve to the heights they name: latest / safe / finalized = the tip, earliest = block 0,
+/// pending = the height being built (answered like any height that does not exist yet)
+pub fn check_tags(w: &mut World) -> Option<Violation> {
+    let tip = w.height?;
+    let by = |w: &mut World, p: Value| w.inst.call("eth_getBlockByNumber", json!([p, false])).to_value();
+    for (tag, h) in [("latest", tip), ("safe", tip), ("finalized", tip), ("earliest", 0), ("pending", tip + 1)] {
+        let a = by(w, json!(tag));
+        let b = by(w, json!(format!("0x{:x}", h)));
+        if a != b {
+            return Some(Violation::new(format!("block-tag-resolves-wrongly/{tag}"), json!({"tag": tag, "expected_height": h, "by_tag": trunc(&a), "by_number": trunc(&b)})));
+        }
+    }
+    for (m, p_tag, p_num) in [
+        ("eth_getBlockTransactionCountByNumber", json!(["latest"]), json!([format!("0x{:x}", tip)])),
+        ("debug_getRawHeader", json!(["latest"]), json!([format!("0x{:x}", tip)])),
+        ("debug_getRawBlock", json!(["latest"]), json!([format!("0x{:x}", tip)])),
+        ("eth_getLogs", json!([{"fromBlock": "latest", "toBlock": "latest"}]), json!([{"fromBlock": format!("0x{:x}", tip), "toBlock": format!("0x{:x}", tip)}])),
+        ("eth_getLogs", json!([{"fromBlock": "earliest", "toBlock": "0x2"}]), json!([{"fromBlock": "0x0", "toBlock": "0x2"}])),
+    ] {
+        let a = w.inst.call(m, p_tag).to_value();
+        let b = w.inst.call(m, p_num).to_value();
+        if a != b {
+            return Some(Violation::new(format!("block-tag-resolves-wrongly/{m}"), json!({"by_tag": trunc(&a), "by_number": trunc(&b), "tip": tip})));
+        }
+    }
+    w.stats.bump("probe_block_tags_checked");
+    None
+}
+
 /// all coherence checks for the block at height `h`
 pub fn check_block(w: &mut World, h: u64) -> Option<Violation> {
     let reused = reused_hashes(w);
@@ -347,7 +376,7 @@ impl Prop for C06 {
         case_of(&g.scenario())
     }
     fn rule(&self) -> String {
-        "case = seeded history (multi-tx blocks with failed / reverted / validation-failed txs, drained pending txs, contract-created contracts, empty blocks, reorg + regrowth, all commit schedules, hash seeds). Monitor after every finalise over the newest blocks and at the end over all heights: contiguity, parentHash, hash<->number, block tx list == accepted receipts in order, tx/receipt/(block,idx)/inscription lookups agree, contiguous log indexes, cumulative gas running sum == block gasUsed, blooms recomputed with an own M3:2048, transactionsRoot recomputed with an own SHA-256 merkle, raw header/block/receipts RLP-decoded with alloy in the harness and compared field by field in order, contract address <-> inscription id both ways. distinct = sha256 of op list; non-trivial = a block with >=2 transactions was checked".into()
+        "case = seeded history (multi-tx blocks with failed / reverted / validation-failed txs, drained pending txs, contract-created contracts, empty blocks, reorg + regrowth, all commit schedules, hash seeds). Monitor after every finalise over the newest blocks and at the end over all heights: contiguity, parentHash, hash<->number, block tx list == accepted receipts in order, tx/receipt/(block,idx)/inscription lookups agree, contiguous log indexes, cumulative gas running sum == block gasUsed, blooms recomputed with an own M3:2048, transactionsRoot recomputed with an own SHA-256 merkle, raw header/block/receipts RLP-decoded with alloy in the harness and compared field by field in order, contract address <-> inscription id both ways. distinct = sha256 of op list; non-trivial = a block with >=2 transactions was checked; at the end the block tags are resolved (latest / safe / finalized = tip, earliest = block 0, pending = the height being built) through eth_getBlockByNumber, the block transaction count, raw header / raw block and eth_getLogs and compared with the same query by number".into()
     }
     fn assumptions(&self) -> Vec<String> {
         vec!["the contract-address -> inscription-id reverse direction is judged only for addresses that carry code".into()]
@@ -396,6 +425,9 @@ impl Prop for C06 {
             }
             if violation.is_none() && reused_hashes(&w).is_empty() {
                 violation = check_reverse_lookups(&mut w);
+            }
+            if violation.is_none() {
+                violation = check_tags(&mut w);
             }
             if violation.is_none() {
                 let reused = reused_hashes(&w);
